@@ -68,12 +68,13 @@ class Ldmcsu(Gate):
             )
             return
 
-        is_main_diag_real = isclose(self.unitary[0, 0].imag, 0.0) and isclose(
-            self.unitary[1, 1].imag, 0.0
-        )
-        is_secondary_diag_real = isclose(self.unitary[0, 1].imag, 0.0) and isclose(
-            self.unitary[1, 0].imag, 0.0
-        )
+        # imaginary parts at rounding-error level (1e-17) must count as zero
+        is_main_diag_real = isclose(
+            self.unitary[0, 0].imag, 0.0, abs_tol=1e-12
+        ) and isclose(self.unitary[1, 1].imag, 0.0, abs_tol=1e-12)
+        is_secondary_diag_real = isclose(
+            self.unitary[0, 1].imag, 0.0, abs_tol=1e-12
+        ) and isclose(self.unitary[1, 0].imag, 0.0, abs_tol=1e-12)
 
         if not is_main_diag_real and not is_secondary_diag_real:
             # U = V D V^-1, where the entries of the diagonal D are the eigenvalues
@@ -115,9 +116,9 @@ class Ldmcsu(Gate):
 
     @staticmethod
     def _get_x_z(su2):
-        is_secondary_diag_real = isclose(su2[0, 1].imag, 0.0) and isclose(
-            su2[1, 0].imag, 0.0
-        )
+        is_secondary_diag_real = isclose(
+            su2[0, 1].imag, 0.0, abs_tol=1e-12
+        ) and isclose(su2[1, 0].imag, 0.0, abs_tol=1e-12)
 
         if is_secondary_diag_real:
             x_value = su2[0, 1]
